@@ -47,6 +47,8 @@ class FakeSock:
         self.cap = None           # room left in the send buffer; only a NON-BLOCKING send can run out of it (a blocking
                                   # send waits for the peer, which keeps reading: the documented design)
         self.rst_seen = False     # the peer's reset has been delivered to a read or write on this socket
+        self.close_at = None      # n: MessageManager.close() is called (by another thread of the application) just
+                                  # before the n-th further sendall on this socket is carried out
 
     def __hash__(self):
         return self.cid
@@ -122,6 +124,12 @@ class FakeSock:
                 raise BrokenPipeError(errno.EPIPE, "Broken pipe")
             self.ok_calls -= 1
         data = bytes(data)
+        if self.close_at is not None:
+            self.close_at -= 1
+            if self.close_at <= 0:
+                # a thread switch at this I/O call: the application's thread runs MessageManager.close() to completion
+                self.close_at = None
+                self.script.mm.close()
         if (flags & 0x40) and self.cap is not None:
             # MSG_DONTWAIT: what fits is written, then EAGAIN - sendall gives no way to tell how much went out
             n = min(len(data), self.cap)
@@ -228,7 +236,10 @@ def run_case(case):
                 ev = script.events.popleft()
                 if ev["k"] == "cap":
                     if ev["c"] in script.socks:
-                        script.socks[ev["c"]].cap = ev["n"]
+                        if ev.get("what") == "close_at":
+                            script.socks[ev["c"]].close_at = ev["n"]
+                        else:
+                            script.socks[ev["c"]].cap = ev["n"]
                     continue
                 # a connection that has started failing keeps failing: a new plan does not revive it
                 if ev["c"] in script.socks:
